@@ -16,7 +16,7 @@ ASSUMPTIONS = ["when two channels of one basis drive the same atom the statement
                "noiseless emulator; cases tainted by a C09 partial effect are set aside"]
 TIERS = {"quick": dict(cases=480, shards=8, case_timeout=240, shard_timeout=1200),
          "thorough": dict(cases=4000, shards=16, case_timeout=240, shard_timeout=3400)}
-FLOORS = {"quick": {"sequences_compared": 250, "hamiltonians_compared": 30000, "basis_checks": 250, "open_global_eom_blocks_padded": 5},
+FLOORS = {"quick": {"sequences_compared": 250, "hamiltonians_compared": 30000, "basis_checks": 250, "open_global_eom_blocks_padded": 5, "xy_mask_scripts_compared": 30},
           "thorough": {"sequences_compared": 2000}}
 WEIGHTS = {"sample": 0, "str": 0, "to_abstract_repr": 0, "build_copy": 0, "queries": 0, "get_duration": 0,
            "estimate_added_delay": 0, "is_in_eom_mode": 0, "current_phase_ref": 0, "measure": 0.05, "add": 12,
@@ -25,7 +25,43 @@ WEIGHTS = {"sample": 0, "str": 0, "to_abstract_repr": 0, "build_copy": 0, "queri
            "modify_eom_setpoint": 1.5, "disable_eom_mode": 0.3}
 
 
+def xy_mask_case(ctx, idx, rng):
+    """Directed: XY mode, three or four atoms of which at least two are masked by the SLM, one or two global
+    microwave channels, optionally a tilted magnetic field; the mask window covers the first pulse."""
+    dev = {"kind": "builtin", "name": "MockDevice"}
+    reg = gen.gen_register(rng, dev, nmin=3, nmax=4, kind="reg")
+    r = prog.Runner(ctx, dev, reg, [])
+    spec = r.chspecs["mw_global"]
+    ids = list(reg["ids"])
+    masked = rng.sample(ids, rng.randint(2, len(ids) - (0 if rng.random() < 0.3 else 1)))
+    ops = [{"op": "declare_channel", "name": "mwa", "ch_id": "mw_global"}]
+    if rng.random() < 0.5:
+        ops.insert(0, {"op": "set_magnetic_field", "b": [gen.pick(rng, [0.0, 10.0, -5.0]), gen.pick(rng, [0.0, 7.0]),
+                                                          gen.pick(rng, [30.0, 12.0])]})
+    ops.insert(rng.randint(0, len(ops)), {"op": "config_slm_mask", "qubits": masked})
+    d1 = gen.pick(rng, [16, 40, 100])
+    ops.append({"op": "add", "pulse": gen.gen_pulse(rng, spec, d=d1, pps_p=0.0, arb=0.0), "ch": "mwa"})
+    if rng.random() < 0.5:
+        ops.append({"op": "declare_channel", "name": "mwb", "ch_id": "mw_global"})
+        ops.append({"op": "delay", "duration": gen.pick(rng, [8, d1 // 2, d1, d1 + 12]), "ch": "mwb"})
+        ops.append({"op": "add", "pulse": gen.gen_pulse(rng, spec, d=gen.pick(rng, [16, 60, 120]), pps_p=0.0, arb=0.0),
+                    "ch": "mwb", "protocol": "no-delay"})
+    for _ in range(rng.randint(0, 2)):
+        ops.append({"op": "add", "pulse": gen.gen_pulse(rng, spec, d=gen.pick(rng, [16, 48]), pps_p=0.0, arb=0.0), "ch": "mwa"})
+    for op in ops:
+        ev = r.step(op)
+        if ev.exc is not None:
+            ctx.count("xy_script_call_refused")
+            return
+    ctx.count("xy_mask_scripts")
+    if check_hamiltonian(ctx, r.seq, case=r.prog, tour_rng=rng):
+        ctx.count("xy_mask_scripts_compared")
+        ctx.mark_nontrivial(("c05xy", idx))
+
+
 def run_case(ctx, idx, rng, tier):
+    if idx % 8 == 3:
+        return xy_mask_case(ctx, idx, rng)
     xy = rng.random() < 0.25
     dev = gen.gen_device(rng, xy=xy, p_builtin=0.2, p_physical=0.1, max_seq=0.0, want_eom=0.45)
     if dev["kind"] == "builtin" and dev["name"] == "AnalogDevice":
